@@ -244,6 +244,34 @@ def siteProg (name : String) : Option (List PostSite) :=
   else if name = "init" then some initProg
   else none
 
+/-! ### the idempotence state of a stream session (`_finished`, `_state_bytes`) across API calls, re-entrant ones included -/
+
+/-- `finished` = `self._finished`, `token` = `self._state_bytes is not None` -/
+structure Sess where
+  finished : Bool
+  token : Bool
+deriving DecidableEq, Repr
+
+/-- what can happen to that state, in any order (a re-entrant call from `on_log` is just an interleaving) -/
+inductive SessOp
+  | cancel        -- `session.cancel()`
+  | storeToken    -- `exchange()` / `next_with_token()` / iteration storing the state token of the response they were reading
+deriving DecidableEq, Repr
+
+/-- `HttpStreamSession.cancel()`: new state and number of cancel POSTs (0 or 1) -/
+def cancelStep (g : CancelGuard) (s : Sess) : Sess × Nat :=
+  let quiet : Bool := match g with
+    | .finishedOrNoToken => s.finished || !s.token
+    | .noTokenOnly => !s.token
+    | .unknown => false
+  (⟨true, false⟩, if quiet then 0 else 1)
+
+/-- number of cancel POSTs of a session over a sequence of operations -/
+def cancelPosts (g : CancelGuard) : Sess → List SessOp → Nat
+  | _, [] => 0
+  | s, .cancel :: ops => (cancelStep g s).2 + cancelPosts g (cancelStep g s).1 ops
+  | s, .storeToken :: ops => cancelPosts g ⟨s.finished, true⟩ ops
+
 /-- all transmissions of a client-method run, in order -/
 def ClientRun.sends (r : ClientRun) : List Step := r.rounds.flatten
 
